@@ -514,6 +514,13 @@ def run(R):
     with R.guard('C09.R5'):
         b = tonic.body(re.compile(r'grpc_timeout::ResponseFuture<F> as .*Future>::poll$'))
         R.saw(b)
+        # the deadline runs from the call: the timer is created by GrpcTimeout::call, never by the response future when it is first polled
+        # (a future that is issued now and awaited later would get the time in between for free)
+        mk = [(bd, bb, t) for bd in tonic.bodies if bd.kind != 'promoted' and 'grpc_timeout' in bd.path for bb, t in bd.calls() if re.search(r'tokio::time::(sleep|sleep_until|Sleep::new|timeout|timeout_at|interval)', (t.get('fn') or ''))
+              or any('k' in a_ and re.search(r'tokio::time::(sleep|sleep_until)', (a_['k'].get('fn') or '')) for a_ in t['args'])]
+        late = [(bd, bb, t) for bd, bb, t in mk if not re.search(r'GrpcTimeout<S> as tower_service::Service<.*>>::call($|::)', bd.path)]
+        R.check(bool(mk) and not late, 'C09.R5', 'timer-created-at-call', site(late[0][0], late[0][1]) if late else site(b),
+                'sites creating the timer: %r (all inside GrpcTimeout::call: %r)' % ([short(bd.path)[-50:] for bd, bb, t in mk], not late))
         polls = b.calls(pat='Future::poll')
         # by what is polled, not by field name: the wrapped future (a type parameter) and the timer (tokio's Sleep)
         is_timer = lambda t_: bool(re.search(r'(^|::)Sleep$', t_.get('self_ty') or ''))
